@@ -220,3 +220,40 @@ Theorem C02_standard_run_example :
   | None => False
   end.
 Proof. exact demo_run_prefix_machine. Qed.
+
+(* The whole system over the standard semantics ([std_run]: the writer, any number of clients each
+   holding standard views, deaths, restarts, new clients; Shm/MachineGenSys.v) makes, for every
+   schedule, exactly the observations of the machine - every access, every value loaded, every
+   record returned - and ends with the same writer log.  C02_RA is therefore a theorem about the
+   executions of the standard release/acquire semantics. *)
+From CB Require Import MachineGenSys.
+
+Section Standard.
+Context {RF : RecFun}.
+
+Theorem C02_machine_is_the_system_at_prefix_views : forall ts m,
+  gm_run do_read r_fence newv_prefix (to_gm m) ts = (to_gm (fst (m_run m ts)), snd (m_run m ts)).
+Proof. exact m_run_is_the_system. Qed.
+
+Theorem C02_standard_system_is_the_machine : forall c ts, cfg_ok c -> Forall real_token ts ->
+  snd (std_run c ts) = snd (m_run (m_init c) ts) /\
+  gm_w (fst (std_run c ts)) = m_w (fst (m_run (m_init c) ts)) /\
+  gm_nrec (fst (std_run c ts)) = m_nrec (fst (m_run (m_init c) ts)).
+Proof. exact standard_system_is_the_machine. Qed.
+
+Theorem C02_RA_standard_semantics : forall c ts, safe_cfg c = true -> Forall real_token ts ->
+  (Z.of_nat (gm_nrec (fst (std_run c ts))) < 32767)%Z ->
+  forall j ret rec, In (ORet j ret rec) (snd (std_run c ts)) -> ret <> RetErr ->
+    rec = repeat 0%Z (c_cells c) \/
+    exists a q e, (0 < a)%nat /\ ev (w_log (gm_w (fst (std_run c ts)))) q = Some e /\ e_kind e = KEven /\ e_att e = a /\ rec = recf (c_cells c) a.
+Proof. exact C02_RA_standard_semantics. Qed.
+
+End Standard.
+
+(* non-vacuity: the run of C02_example over the standard semantics returns records 1 and 3 *)
+Example C02_standard_example :
+  let ts := repeat TW 11 ++ [TNewReader] ++ repeat (TR 0 None) 11 ++ repeat TW 6 ++ [TCrash; TRestart; TNewReader] ++
+            repeat TW 11 ++ repeat (TR 1 None) 11 ++ repeat (TR 0 None) 11 in
+  filter (fun x => match x with ORet _ _ _ => true | _ => false end) (snd (std_run fixed_cfg ts)) =
+    [ORet 0 RetFresh (rec_of 7 1); ORet 1 RetFresh (rec_of 7 3); ORet 0 RetFresh (rec_of 7 3)].
+Proof. vm_compute. reflexivity. Qed.
